@@ -8,6 +8,7 @@ fresh CID.
 """
 import csv
 import io
+import os
 
 from mc import engine, harness, readermachine
 from mc.core import Part
@@ -72,6 +73,27 @@ def shapes_for(config):
         row[config["fields"].index("name")] = "a\x0c\u2028"
         shapes.append(("ok2-name-with-form-feed-and-line-separator", row))
     return [s for s in shapes if s[0] != "empty"] + [("empty", [])]
+
+
+def _encodable(text, encoding):
+    try:
+        text.encode(encoding)
+        return True
+    except UnicodeEncodeError:
+        return False
+
+
+def _unencodable_row(config, rows):
+    """An accepted row shape with a fresh key whose free-text cell holds a character outside cp1252 (the default encoding), or None."""
+    fields = config["fields"]
+    text_field = next((name for name in ("name", "note") if name in fields), None)
+    if text_field is None:
+        return None
+    row = [readermachine.CATALOGUE[name][2][0] for name in fields]
+    row[fields.index(text_field)] = "\u0141"
+    if "id" in fields:
+        row[fields.index("id")] = "77"
+    return row
 
 
 def header_row(decls):
@@ -190,6 +212,38 @@ def judge(case, part):
             part.fail(tag % "write_rows-differs-from-row-by-row", case, {"raised": None, "text": written}, {"raised": bulk_raised, "text": bulk_target.getvalue()})
     elif bulk_raised is None or bulk_raised.startswith("foreign") or not written.startswith(bulk_target.getvalue()):
         part.fail(tag % "write_rows-with-a-rejected-row", case, "a cutplace error at the first rejected row, nothing emitted beyond it", {"raised": bulk_raised, "text": bulk_target.getvalue()})
+    # the same rows written to a file the writer opens itself, followed by a well-shaped row that the declared encoding cannot hold:
+    # that row is rejected without leaving anything behind, and after close() the file holds exactly what the stream held
+    encoding = cid.data_format.encoding
+    if all(_encodable(cell, encoding) for row in rows for cell in row if isinstance(cell, str)):
+        path = os.path.join(readermachine.tmpdir(), "c14_target_%d.txt" % os.getpid())
+        outcomes = []
+        try:
+            file_writer = cutplace.Writer(make_cid(config, decls), path)
+            for row in rows + ([_unencodable_row(config, case["rows"])] if _unencodable_row(config, case["rows"]) else []):
+                try:
+                    file_writer.write_row(list(row))
+                    outcomes.append("written")
+                except errors.CutplaceError as error:
+                    outcomes.append("rejected")
+            try:
+                file_writer.close()
+                outcomes.append(None)
+            except errors.CutplaceError as error:
+                outcomes.append(type(error).__name__)
+            with open(path, "r", newline="", encoding=encoding) as stored:
+                in_file = stored.read()
+        except Exception as error:
+            in_file = "foreign:" + repr(error)
+        part.transitions += 1
+        part.validated += 1
+        if in_file != written:
+            part.fail(tag % "file-target-differs-from-stream-target", case, written, {"file": in_file, "outcomes": outcomes})
+        elif not _unencodable_row(config, case["rows"]) and outcomes[-1] != closed:
+            # (with the extra row the verdicts are not compared: the checks have seen that row before the encoder refused it, which the statement does not speak about)
+            part.fail(tag % "file-target-close-verdict", case, closed, outcomes)
+        elif _unencodable_row(config, case["rows"]) and outcomes[-2] != "rejected":
+            part.fail(tag % "unencodable-row-not-rejected", case, "rejected", outcomes)
     # read back under a fresh CID
     fresh = make_cid(config, decls)
     back, raised = [], None
